@@ -555,3 +555,40 @@ def si_obligations():
     for s in sites:
         pass
     return obs
+
+
+# ------------------------------------------------------------------------------------------------ renderer ownership (C15)
+def renderer_ownership_obligations():
+    """The renderer may mutate only (a) the `alt` attribute of the image token it renders and (b) objects it created
+    itself with their own attribute storage: a temporary Token must be constructed with `attrs=<...>.copy()` (or a
+    literal) before attrJoin/attrSet/attrPush is applied to it."""
+    obs = []
+    mi = S.load_module("markdown_it.renderer")
+    for qn, fn in mi.functions.items():
+        if not qn.startswith("RendererHTML."):
+            continue
+        q = f"markdown_it.renderer.{qn}"
+        for n in ast.walk(fn):
+            if isinstance(n, ast.Call) and isinstance(n.func, ast.Attribute) and n.func.attr in ("attrJoin", "attrPush", "attrSet") and isinstance(n.func.value, ast.Name):
+                var = n.func.value.id
+                creation = None
+                for m in ast.walk(fn):
+                    if isinstance(m, ast.Assign) and m.lineno <= n.lineno and any(isinstance(t, ast.Name) and t.id == var for t in m.targets):
+                        if creation is None or m.lineno >= creation.lineno:
+                            creation = m
+                ok = False
+                why = "receiver of unknown origin"
+                if creation is not None:
+                    v = creation.value
+                    if isinstance(v, ast.Call) and getattr(v.func, "id", "") == "Token":
+                        kw = {k.arg: k.value for k in v.keywords}
+                        a = kw.get("attrs")
+                        ok = a is None or isinstance(a, ast.Dict) or (isinstance(a, ast.Call) and isinstance(a.func, ast.Attribute) and a.func.attr == "copy")
+                        why = "a Token the function built with its own attrs" if ok else f"a Token built with attrs={ast.unparse(a)} (shared with the rendered token)"
+                    elif isinstance(v, ast.Subscript) and n.func.attr == "attrSet" and n.args and isinstance(n.args[0], ast.Constant) and n.args[0].value == "alt" and qn.endswith(".image"):
+                        ok, why = True, "the image token's alt attribute (idempotent: a function of the children)"
+                    else:
+                        why = f"`{ast.unparse(v)[:40]}`: not a freshly built Token with its own attrs"
+                obs.append({"oid": f"{q}/FRAME/ownership:{var}.{n.func.attr}@L{n.lineno}", "verdict": "discharged" if ok else "failed", "func": q, "line": n.lineno, "kind": "FRAME",
+                            "info": f"line {n.lineno}: {var}.{n.func.attr}(...) mutates {why}"})
+    return obs
